@@ -20,7 +20,7 @@ class Model:
         for i in range(len(w.streams)):
             if not w.terminal[i]:
                 for d in self.derive:
-                    ops.append((d, i, (("a", 1),)) if d == "QMD" else (d, i))
+                    ops.append((d, i, (("a", 1),)) if d == "QMD" else (("QMD", i, (("b", 2),)) if d == "QMDb" else (d, i)))
             if not w.rootless[w.root[i]]:  # a stream without a dataset cannot be executed
                 for e in self.execs:
                     ops.append((e, i))
@@ -83,8 +83,8 @@ class C11(Check):
     def spaces(self, tier):
         Q = tier == "quick"
         out = []
-        plan = [("quick", 3, 1), ("mut", 3, 1), ("astargs", 3, 1)] if Q else \
-            [("quick", 4, 2), ("wide", 3, 1), ("narrow", 5, 2), ("mut", 4, 2), ("astargs", 4, 2)]
+        plan = [("quick", 3, 1), ("mut", 3, 1), ("astargs", 3, 1), ("qmd", 4, 2)] if Q else \
+            [("quick", 4, 2), ("wide", 3, 1), ("narrow", 5, 2), ("mut", 4, 2), ("astargs", 4, 2), ("qmd", 5, 2)]
         for mname, depth, plen in plan:
             m = self._model(mname)
             out.append(Space(f"histories<={depth}:{mname}", {"depth": depth, "menu": m.derive + m.execs, "roots": 2},
@@ -113,6 +113,9 @@ class C11(Check):
         if name == "astargs":
             # ONE user-held AST per operator, handed to streams with and without a dataset, typed and untyped
             return Model(["SelectAstSame", "WhereAstSame", "SelectManyAstSame", "SelectMod", "Select"], ["Value"], roots=(1, 1, 0, 2))
+        if name == "qmd":
+            # query metadata with two different keys, empty MetaData in between, executions: one level deeper than the wide menus
+            return Model(["QMD", "QMDb", "MD0", "Select"], ["Value"], roots=(1, 0, 0, 0))
         if name == "wide":
             return Model(DERIVE_T, EXEC_T)
         raise ValueError(name)
